@@ -135,6 +135,20 @@ def step (line : String) : String :=
       match branchFlatten b k with
       | .ok o => return sh2 showRat o
       | .error e => return e
+    | "hist" => do
+      -- ops: `fb m s k` / `fix m tag`, length-prefixed
+      let ops ← many (do
+        let t ← next
+        match t with
+        | "fb" => do let m ← nat; let s ← nat; let k ← int; pure (Hist.Op.fb m s k)
+        | "fix" => do let m ← nat; let tag ← nat; pure (Hist.Op.fix m tag)
+        | _ => throw "histop")
+      let showSrc : Option Hist.Src → String
+        | none => "err"
+        | some .empty => "empty"
+        | some (.fixed t) => s!"fixed:{t}"
+        | some (.set s d) => s!"set:{s}:{d}"
+      return " ".intercalate ((Hist.trace Hist.step Hist.init ops).map showSrc)
     | "finalize" => do
       let d ← nat; let neurons ← nat
       return (if finalizeOk d neurons then "ok" else "err:neurons")
